@@ -211,13 +211,19 @@ RecCode(rc) == (IF rc.kind = "DIAG" THEN 3 ELSE IF rc.kind = "BLOCK" THEN 5 ELSE
 LayoutHash(rs) == LET RECURSIVE H(_, _)
                       H(k, acc) == IF k > Len(rs) THEN acc ELSE H(k + 1, (acc * 131 + RecCode(rs[k])) % 10007)
                   IN H(1, 7)
-(* the everyday layouts -- DIAGONAL records of plain values, v [FIX] -- belong to every slice *)
-PlainLayout(rs) == \A r \in 1..Len(rs) : /\ rs[r].kind = "DIAG" /\ ~rs[r].hdr
-                                         /\ \A i \in 1..Len(rs[r].items) :
-                                               LET it == rs[r].items[i] IN ~it.sd /\ it.rep = 1 /\ ~it.par /\ it.name = ""
+(* the everyday layouts belong to every slice: DIAGONAL records of plain values v [FIX] ("plain"), and the same
+   shape with unfixed values of which any may carry a name comment ("named": unnamed next to named values,
+   in either order -- a removed value must take its comment with it)                                          *)
+PlainShape(rs) == \A r \in 1..Len(rs) : /\ rs[r].kind = "DIAG" /\ ~rs[r].hdr
+                                        /\ \A i \in 1..Len(rs[r].items) :
+                                              LET it == rs[r].items[i] IN ~it.sd /\ it.rep = 1 /\ ~it.par
+AllUnnamed(rs) == \A r \in 1..Len(rs) : \A i \in 1..Len(rs[r].items) : rs[r].items[i].name = ""
+AllUnfixed(rs) == \A r \in 1..Len(rs) : \A i \in 1..Len(rs[r].items) : ~rs[r].items[i].fix
+PlainLayout(rs) == PlainShape(rs) /\ AllUnnamed(rs)
+LayoutClass(rs) == IF PlainLayout(rs) THEN "plain" ELSE IF PlainShape(rs) /\ AllUnfixed(rs) THEN "named" ELSE "no"
 StartEdit ==
     /\ phase = "build" /\ Len(recs) > 0
-    /\ NSlices = 1 \/ LayoutHash(recs) % NSlices = Slice \/ PlainLayout(recs)
+    /\ NSlices = 1 \/ LayoutHash(recs) % NSlices = Slice \/ LayoutClass(recs) # "no"
     /\ phase' = "edit" /\ bs' = Blocks(recs)
     /\ UNCHANGED <<recs, steps, touched, nadd>>
 
@@ -251,6 +257,9 @@ Feat(b) == [src_kind |-> IF b.src = <<0, 0>> THEN "NEW" ELSE recs[b.src[1]].kind
             last_of_multi |-> b.src # <<0, 0>> /\ b.src[2] > 1 /\ b.src[2] = Len(recs[b.src[1]].items),
             rec_has_repeat |-> b.src # <<0, 0>> /\ \E i \in 1..Len(recs[b.src[1]].items) : recs[b.src[1]].items[i].rep > 1,
             size |-> Len(b.etas), fixed |-> b.fix, iov |-> FALSE,
+            item_pos |-> IF b.src = <<0, 0>> THEN 0 ELSE b.src[2],
+            rec_names |-> IF b.src = <<0, 0>> THEN <<>>
+                          ELSE [i \in 1..Len(recs[b.src[1]].items) |-> recs[b.src[1]].items[i].name # ""],
             block_rep |-> b.src # <<0, 0>> /\ recs[b.src[1]].rep,
             fixpos |-> IF b.src # <<0, 0>> /\ b.src[2] = 0 THEN recs[b.src[1]].fixpos ELSE "hdr"]
 
@@ -307,8 +316,8 @@ StructTouch(b) == IF b.src = <<0, 0>> THEN {}
                   ELSE IF b.src[2] > 0 THEN {b.src} \cup HdrOf(b.src[1])
                   ELSE RecIds(b.src[1])
 (* remove_iiv(model, eta): the eta disappears, its block loses the row and column *)
-RemoveEta(k, i) ==
-    /\ Editing /\ Structural /\ k \in 1..Len(bs) /\ ~IsIov(k) /\ i \in 1..Len(bs[k].etas)
+RemoveEta(k, i) ==      \* ($SIGMA cases: the epsilon is taken out of the statements and remove_unused_parameters_and_rvs is called)
+    /\ Editing /\ k \in 1..Len(bs) /\ ~IsIov(k) /\ i \in 1..Len(bs[k].etas)
     /\ ~bs[k].fix                                          \* remove_iiv refuses fixed etas (ValueError)
     /\ Len(AllEtas) > 1                                    \* at least one eta remains
     /\ LET b == bs[k]
@@ -393,7 +402,7 @@ RecJson(rec) == [kind |-> rec.kind, hdr |-> rec.hdr, items |-> [i \in 1..Len(rec
                  size |-> rec.size, scale |-> rec.scale, vals |-> rec.vals, fix |-> rec.fix, named |-> rec.named,
                  bare |-> rec.bare, first |-> rec.first, rep |-> rec.rep, fixpos |-> rec.fixpos,
                  names |-> [i \in 1..rec.size |-> IF rec.named THEN NameOfOm(rec.first + i - 1) ELSE ""]]
-Case == [recs |-> [r \in 1..Len(recs) |-> RecJson(recs[r])], netas |-> NEtas(recs), plain |-> PlainLayout(recs),
+Case == [recs |-> [r \in 1..Len(recs) |-> RecJson(recs[r])], netas |-> NEtas(recs), plain |-> LayoutClass(recs),
          read |-> ProjB(Blocks(recs)), structural |-> Structural, steps |-> steps]
 EmitCase == Terminal => PrintT(<<"CASE", ToJson(Case)>>)
 =============================================================================
